@@ -365,6 +365,11 @@ func MergeMetadata(db Backend, bucketName string, objectName string, meta map[st
 	}
 	// carry over metadata if it exists
 	if existingObj != nil {
+		if existingObj.Contents != nil {
+			// Only the metadata is of interest; the backends hand out an open
+			// file or reader that has to be released:
+			defer existingObj.Contents.Close()
+		}
 		for k, v := range existingObj.Metadata {
 			// new metadata overwrites old but keep the rest
 			// TODO: check how metadata can be deleted?!
